@@ -65,4 +65,74 @@ def tokensTill : List Token → Int → Int → Int → List Token
       let c' := if t.kind = .op then (if t.text = "{" then c + 1 else if t.text = "}" then c - 1 else c) else c
       if t.kind = .comment then tokensTill ts p' b' c' else t :: tokensTill ts p' b' c'
 
+/-! ### the token scan of `_parse_source_for_lambda` (model additions) -/
+
+def isStopTok (t : Token) : Bool := t.kind == .op && (t.text == "," || t.text == ")")
+
+/-- what `tokens_till` leaves in the tokenizer: the tokens after the stop token it consumed -/
+def tokensTillRest : List Token → Int → Int → Int → List Token
+  | [], _, _, _ => []
+  | t :: ts, p, b, c =>
+    if t.kind = .op ∧ (t.text = "," ∨ t.text = ")") ∧ p = 0 ∧ b = 0 ∧ c = 0 then ts
+    else
+      let p' := if t.kind = .op then (if t.text = "(" then p + 1 else if t.text = ")" then p - 1 else p) else p
+      let b' := if t.kind = .op then (if t.text = "[" then b + 1 else if t.text = "]" then b - 1 else b) else b
+      let c' := if t.kind = .op then (if t.text = "{" then c + 1 else if t.text = "}" then c - 1 else c) else c
+      tokensTillRest ts p' b' c'
+
+theorem tokensTillRest_length : ∀ (ts : List Token) (p b c : Int), (tokensTillRest ts p b c).length ≤ ts.length
+  | [], _, _, _ => by simp [tokensTillRest]
+  | t :: ts, p, b, c => by
+    simp only [tokensTillRest]
+    split
+    · simp
+    · have := tokensTillRest_length ts
+        (if t.kind = .op then (if t.text = "(" then p + 1 else if t.text = ")" then p - 1 else p) else p)
+        (if t.kind = .op then (if t.text = "[" then b + 1 else if t.text = "]" then b - 1 else b) else b)
+        (if t.kind = .op then (if t.text = "{" then c + 1 else if t.text = "}" then c - 1 else c) else c)
+      simp only [List.length_cons]; omega
+
+/-- `find_identifier(ids, can_encounter_newline)`: (token before, the identifier token, what is left of the stream) -/
+def findIdentifier (ids : List String) (canNewline : Bool) : List Token → Option Token → Option (Option Token × Token × List Token)
+  | [], _ => Option.none
+  | t :: ts, last =>
+    if t.kind = .name then
+      if ids.contains t.text then some (last, t, ts)
+      else findIdentifier ids canNewline ts (some t)
+    else if t.kind = .newline ∧ !canNewline then Option.none
+    else findIdentifier ids canNewline ts last
+
+theorem findIdentifier_length (ids : List String) (cn : Bool) : ∀ (ts : List Token) (last : Option Token) r,
+    findIdentifier ids cn ts last = some r → r.2.2.length < ts.length
+  | [], _, r, h => by simp [findIdentifier] at h
+  | t :: ts, last, r, h => by
+    simp only [findIdentifier] at h
+    split at h
+    · split at h
+      · cases h; simp
+      · have := findIdentifier_length ids cn ts _ r h; simp only [List.length_cons]; omega
+    · split at h
+      · cases h
+      · have := findIdentifier_length ids cn ts _ r h; simp only [List.length_cons]; omega
+
+def sawNewline (ts : List Token) : Bool := ts.any (fun t => t.kind == .newline || t.text == "\n")
+
+/-- one `_get_lambda_in_stream`: the tokens handed to the parser after the `lambda` token, whether a newline was seen -/
+def lambdaExtent (ts : List Token) : List Token × Bool :=
+  let acc := tokensTill ts 0 0 0
+  (acc, sawNewline acc)
+
+/-- the loop "grab all the lambdas on a single line": for each lambda met, the NAME token before it (its key) and the
+    tokens of its extent, in scan order; `ts` is the stream after the first `lambda` token -/
+def scanLine : Nat → Option Token → List Token → List (Option String × List Token)
+  | 0, _, _ => []
+  | fuel + 1, key, ts =>
+    let (acc, nl) := lambdaExtent ts
+    let here := (key.map (·.text), acc)
+    if nl then [here]
+    else
+      match findIdentifier ["lambda"] false (tokensTillRest ts 0 0 0) Option.none with
+      | some (key', _, rest) => here :: scanLine fuel key' rest
+      | Option.none => [here]
+
 end Fadl
